@@ -359,6 +359,7 @@ func (g *gen) randomType() TSpec {
 			b.JName = a.JName
 			host.F = append(host.F, a, b)
 		case "empty-struct":
+			host = structs[0] // the root: a struct added at the deepest level would exceed depth 5
 			t := TSpec{K: "struct"}
 			if g.en["ptr"] && g.rng.Intn(2) == 0 {
 				t = TSpec{K: "ptr", E: ptrTo(t)}
